@@ -10,7 +10,6 @@
 mod common;
 mod gen;
 mod json;
-#[path = "props/mod.rs"]
 mod props;
 
 use common::*;
